@@ -1809,6 +1809,10 @@ func (ls *LState) SetGlobal(name string, value LValue) {
 }
 
 func (ls *LState) Next(tb *LTable, key LValue) (LValue, LValue) {
+	if !tb.isNextKey(key) {
+		// luaH_next: the key must be nil or a key of the table
+		ls.RaiseError("invalid key to 'next'")
+	}
 	return tb.Next(key)
 }
 
